@@ -680,13 +680,16 @@ def run(ctx):
 
     # 0. replay / corpus
     t0 = time.time()
+    if not ctx.replay:
+        from framework import run_py_corpus
+        run_py_corpus(ctx)
     paths = []
     if ctx.replay:
         paths = [ctx.replay if os.path.isabs(ctx.replay) else os.path.join(VERIF, ctx.replay)]
     else:
         cdir = os.path.join(VERIF, "corpus", "C07")
         if os.path.isdir(cdir):
-            paths = [os.path.join(cdir, f) for f in sorted(os.listdir(cdir))]
+            paths = [os.path.join(cdir, f) for f in sorted(os.listdir(cdir)) if not f.endswith(".py")]
     d, m = load_cases(paths)
     ok = True
     if d:
